@@ -112,10 +112,18 @@ class Policy:
 
         return rule in self[sec][ptype].policy
 
+    def _check_grouping_rule_size(self, sec, ptype, rules):
+        """a grouping rule shorter than its role definition is refused before anything is stored."""
+        if sec == "g":
+            count = self[sec][ptype].value.count("_")
+            if any(len(rule) < count for rule in rules):
+                raise TypeError("grouping policy elements do not meet role definition")
+
     def add_policy(self, sec, ptype, rule):
         """adds a policy rule to the model."""
         assertion = self[sec][ptype]
         if not self.has_policy(sec, ptype, rule):
+            self._check_grouping_rule_size(sec, ptype, [rule])
             assertion.policy.append(rule)
         else:
             return False
@@ -152,6 +160,8 @@ class Policy:
         for rule in rules:
             if self.has_policy(sec, ptype, rule):
                 return False
+
+        self._check_grouping_rule_size(sec, ptype, rules)
 
         # add_policy skips a rule repeated inside the batch and keeps the priority order
         for rule in rules:
